@@ -159,6 +159,32 @@ fn check_enc(c: &EncCase, ctx: &mut CaseCtx) -> CaseResult {
             }
         }
         ensure!(out == lits, "huffman_4stream_roundtrip", "{what}: 4-stream encoding of {} literals decodes to {} (spec decoder)", lits.len(), out.len());
+        // ... and this crate's literals-section decoder reads the same streams (for every size from
+        // 6 literals on: with 6 and 9 literals the last stream holds nothing but its end mark)
+        if lits.len() < (1 << 18) && bytes.len() < (1 << 18) {
+            let (sf, bits, hlen) = if lits.len() < 1024 && bytes.len() < 1024 { (1u64, 10, 3) } else if lits.len() < (1 << 14) && bytes.len() < (1 << 14) { (2, 14, 4) } else { (3, 18, 5) };
+            let h: u64 = 2 | (sf << 2) | ((lits.len() as u64) << 4) | ((bytes.len() as u64) << (4 + bits));
+            let mut sec = h.to_le_bytes()[..hlen].to_vec();
+            sec.extend_from_slice(&bytes);
+            let mut st = hk::HuffmanState::new();
+            let (dec, used) = st.decode_literals_section(&sec).map_err(|e| Failure::new("literals_section_undecodable", format!("{what}: 4-stream section of {} literals (last stream: {} literals): {e}", lits.len(), lits.len() - (3 * per).min(lits.len()))))?;
+            ensure!(dec == lits && used == sec.len(), "literals_section_roundtrip", "{what}: 4-stream section of {} literals decodes to {} literals using {used} of {} bytes", lits.len(), dec.len(), sec.len());
+            ctx.feat_if(lits.len() <= 3 * per, "4streams:last_stream_empty");
+            ctx.feat(["", "4streams:header_10bit_sizes", "4streams:header_14bit_sizes", "4streams:header_18bit_sizes"][sf as usize]);
+        }
+        // one stream in a section of its own (size format 0)
+        if lits.len() < 1024 {
+            let one = enc::encode(&table, &lits, true);
+            if one.len() < 1024 {
+                let h: u32 = 2 | ((lits.len() as u32) << 4) | ((one.len() as u32) << 14);
+                let mut sec = h.to_le_bytes()[..3].to_vec();
+                sec.extend_from_slice(&one);
+                let mut st = hk::HuffmanState::new();
+                let (dec, used) = st.decode_literals_section(&sec).map_err(|e| Failure::new("literals_section_undecodable", format!("{what}: 1-stream section of {} literals: {e}", lits.len())))?;
+                ensure!(dec == lits && used == sec.len(), "literals_section_roundtrip", "{what}: 1-stream section of {} literals decodes to {} literals using {used} of {} bytes", lits.len(), dec.len(), sec.len());
+                ctx.feat("1stream:section_decoded_by_the_crate");
+            }
+        }
     }
     // production path: compress_literals -> this crate's literal section decoder (incl. treeless reuse)
     if lits.len() > 1024 {
@@ -362,7 +388,7 @@ pub fn run(eng: &Engine) {
             order: (k % 5) as u8,
             placement: ((k / 5) % 4) as u8,
             seed: r.next() as u32,
-            len: [1u32, 3, 4, 5, 6, 7, 100, 1025, 1030, 5000, 20_000][(r.below(11)) as usize] + r.below(3) as u32,
+            len: [1u32, 3, 4, 5, 6, 7, 9, 10, 100, 1025, 1030, 5000, 20_000][(r.below(13)) as usize] + r.below(3) as u32,
         };
         check_enc(&case, c)
     });
